@@ -5,7 +5,7 @@ from vf.xh import Ob
 PREAMBLE = '''\
 import sys
 from vf import skel as _sk
-from checks.C19 import cut_ok, PROGRAMS
+from checks.C19 import cut_ok, cut_ok_reused, PROGRAMS
 '''
 
 PROGRAMS = [
@@ -23,7 +23,16 @@ PROGRAMS = [
     "(a\n  (b\n    \"multi\nline\")\n  [c])\n(d)",
     "#_ #_ a b c",
     "(when x #_ y z) ''a",
+    "(print f\"a{{b}}c{x}}}\" #(1) #{2} #* r #** k)",
+    "[f\"{{}}\" f\"}}{{{y =}\" #[f[{{q}} {z}]f]]",
+    "(setv x #(1 #{2}) y '#(3)) #(4)",
+    "(f :kw 1 #^ int a \\x) [~@b ~ @c]",
 ]
+
+# inputs after which the same reader object is used again (the REPL keeps one reader for the whole session): reads that
+# were abandoned half-way, with look-ahead pending, and complete ones
+EARLIER = ["(setv x #", "(foo a.)", "[1 2 \"abc", "(a b", "f\"{x", "(ok 1)", "#[q[ ", "'", "(x #* "]
+
 
 
 def _cut_ok(text, n):
@@ -38,6 +47,42 @@ def _cut_ok(text, n):
         if r[0] != "ok":
             return "prefix %r ends between top-level forms but reading gives %r" % (text[:n], r)
     return None
+
+
+def _cut_ok_reused(ei, pi, n):
+    """The classification of a prefix must not depend on what the same reader object read before."""
+    import hy
+    from hy.reader.hy_reader import HyReader
+
+    text = PROGRAMS[pi]
+    cls = readerlib.cut_class(text, n)
+    if cls is None:
+        return None
+    rd = HyReader()
+    readerlib.read_all(EARLIER[ei], reader=rd)
+    r = readerlib.read_all(text[:n], reader=rd)
+    if cls == "inside":
+        if r != ("lex", "PrematureEndOfInput"):
+            return "after reading %r with the same reader, prefix %r (inside an unclosed construct) gives %r" % (EARLIER[ei], text[:n], r[:2] if r[0] != "ok" else r)
+    elif r[0] != "ok":
+        return "after reading %r with the same reader, prefix %r (between top-level forms) gives %r" % (EARLIER[ei], text[:n], r)
+    else:
+        fresh = readerlib.read_all(text[:n])
+        if fresh[0] == "ok" and not readerlib.meq(fresh[1], r[1]):
+            return "after reading %r with the same reader, prefix %r reads as %r instead of %r" % (EARLIER[ei], text[:n], r[1], fresh[1])
+    return None
+
+
+def cut_ok_reused(ei, pi, n, why=None):
+    from vf import skel
+
+    if why is None and skel.EXPLAIN[0]:
+        del skel.LAST_WHY[:]
+        why = skel.LAST_WHY
+    r = strsym.untraced(_cut_ok_reused, ei, pi, n)
+    if r is not None and why is not None:
+        why.append(r)
+    return r is None
 
 
 def cut_ok(pi, n, why=None):
@@ -62,6 +107,13 @@ def spec(tier, seed):
         fn = "h%d" % pi
         L = ["def %s(n: int) -> bool:" % fn, '    """', "    post: _", '    """', "    return cut_ok(%d, _sk.box(n, 0, %d))" % (pi, len(p))]
         obs.append(Ob(fn, "\n".join(L), sample="every cut point 0..%d of %r" % (len(p), p), group="cut"))
+    reuse = list(range(len(PROGRAMS))) if tier == "thorough" else [0, 4, 6, 14]
+    for pi in reuse:
+        p = PROGRAMS[pi]
+        fn = "u%d" % pi
+        L = ["def %s(e: int, n: int) -> bool:" % fn, '    """', "    post: _", '    """',
+             "    return cut_ok_reused(_sk.box(e, 0, %d), %d, _sk.box(n, 0, %d))" % (len(EARLIER) - 1, pi, len(p))]
+        obs.append(Ob(fn, "\n".join(L), sample="one reader object: first one of %r, then every cut point 0..%d of %r" % (EARLIER, len(p), p), group="reused-reader"))
     tw = "\n".join(["def twin0(n: int) -> bool:", '    """', "    post: _", '    """', "    cut_ok(0, _sk.box(n, 0, 5))", "    return False"])
     obs.append(Ob("twin0", tw, twin=True, group="twin"))
 
@@ -85,8 +137,10 @@ def spec(tier, seed):
         "grade": "D (the cut index is a folded selector: one path per cut point; reader call untraced)",
         "functions_encoded": ["hy.read_many / HyReader (premature-end detection in read_chars_until, fill_pos, prefix handlers, bracket strings, f-string fields)", "hy.reader.reader.Reader._eof_tracker"],
         "bounds": "every cut point of %d well-formed programs (<= %d characters) covering parens/brackets/braces, #( and #{, strings with escaped quotes, bytes, bracket strings with "
-                  "delimiters, f-strings with nested fields, comments, every prefix (' ` ~ ~@ #* #** #^ #_), multi-line forms" % (len(PROGRAMS), max(len(p) for p in PROGRAMS)),
-        "outside": "other programs; cut points that split an atom or a multi-character prefix token are not judged; the REPL's continuation prompt is checked in C40",
+                  "delimiters, f-strings with nested fields, comments, every prefix (' ` ~ ~@ #* #** #^ #_), multi-line forms, doubled braces in f-strings; "
+                  "plus, for %s programs, every cut point read with a reader object that first read each of %d earlier inputs (abandoned half-way or complete)" % (
+                      len(PROGRAMS), max(len(p) for p in PROGRAMS), "all" if tier == "thorough" else "4", len(EARLIER)),
+        "outside": "other programs; cut points that split an atom or a multi-character prefix token at top level (outside every bracket and pending prefix), or that leave a dotted identifier ending in a dot, are not judged; the REPL's continuation prompt is checked in C40",
         "stubs": ["reader call executed under crosshair.tracers.NoTracing"],
         "assumptions": ["oracle: independent regex tokenizer + frame/pending-prefix state machine in vf/readerlib.py:cut_class"],
     }
